@@ -8,11 +8,14 @@ package runtime_test
 //                                         T <func> <sort.X reached, comma separated or ->   (go/ast: which functions of Go's
 //                                         sort package each package-level function reaches, directly, as a function value, or
 //                                         through other functions of the package)
+//   J <id> M|I|U <hex of tagged value description | hex of JSON text> [<hex prefix> <hex indent>]
+//                                      -> <id> ok <hex of Go's json.Marshal / MarshalIndent / Marshal(Unmarshal(text))> | <id> err
 //   C <id> <pkg> <name> <type:hex>...  -> <id> <canonical result>   the Go library function of that name called directly (c11go)
 
 import (
 	"bufio"
 	"encoding/hex"
+	gojson "encoding/json"
 	"fmt"
 	"go/ast"
 	"go/parser"
@@ -231,6 +234,8 @@ func TestVerifC11Direct(t *testing.T) {
 			}
 		case "T":
 			c11sortAnalysis(w, f[1])
+		case "J":
+			c11json(w, f)
 		case "C":
 			id, pkg, name := f[1], f[2], f[3]
 			gofn, known := c11go[pkg+"."+name]
@@ -427,5 +432,89 @@ func c11sortAnalysis(w *bufio.Writer, dir string) {
 		}
 
 		fmt.Fprintf(w, "T %s %s\n", n, strings.Join(r, ","))
+	}
+}
+
+// c11value builds the Go value an Ego literal of the same shape denotes: {"t":"s","v":hex} string, "i" int, "f" float64,
+// "b" bool, "n" nil, "a" []any, "m" map[string]any.
+func c11value(d map[string]any) any {
+	switch d["t"] {
+	case "s":
+		b, _ := hex.DecodeString(d["v"].(string))
+
+		return string(b)
+	case "i":
+		n, _ := strconv.ParseInt(d["v"].(string), 10, 64)
+
+		return int(n)
+	case "f":
+		switch d["v"].(string) {
+		case "nan":
+			return math.NaN()
+		case "+inf":
+			return math.Inf(1)
+		}
+
+		x, _ := strconv.ParseFloat(d["v"].(string), 64)
+
+		return x
+	case "b":
+		return d["v"].(bool)
+	case "a":
+		r := []any{}
+		for _, e := range d["v"].([]any) {
+			r = append(r, c11value(e.(map[string]any)))
+		}
+
+		return r
+	case "m":
+		r := map[string]any{}
+		for k, e := range d["v"].(map[string]any) {
+			r[k] = c11value(e.(map[string]any))
+		}
+
+		return r
+	}
+
+	return nil
+}
+
+func c11json(w *bufio.Writer, f []string) {
+	id, mode := f[1], f[2]
+	raw, _ := hex.DecodeString(f[3])
+
+	var (
+		out []byte
+		err error
+	)
+
+	switch mode {
+	case "M", "I":
+		var d map[string]any
+		if e := gojson.Unmarshal(raw, &d); e != nil {
+			fmt.Fprintf(w, "%s baddesc\n", id)
+
+			return
+		}
+
+		v := c11value(d)
+		if mode == "M" {
+			out, err = gojson.Marshal(v)
+		} else {
+			pre, _ := hex.DecodeString(f[4])
+			ind, _ := hex.DecodeString(f[5])
+			out, err = gojson.MarshalIndent(v, string(pre), string(ind))
+		}
+	case "U":
+		var v any
+		if err = gojson.Unmarshal(raw, &v); err == nil {
+			out, err = gojson.Marshal(v)
+		}
+	}
+
+	if err != nil {
+		fmt.Fprintf(w, "%s err\n", id)
+	} else {
+		fmt.Fprintf(w, "%s ok %s\n", id, hex.EncodeToString(out))
 	}
 }
